@@ -16,8 +16,8 @@ Value formats, as the code uses them:
 
 The calendar rendering of RFC 3339 and the unit rendering of `Duration.String` are Go's `time`
 package and are NOT modelled: the model's value for `added_at` is `T<unix seconds>[.<fraction>]` and
-for `seeded_for` `D<nanoseconds>`; the harness converts the stored texts to this form with `time`
-itself.  What is modelled exactly is what the property is about: which part of the instant is stored.
+for `seeded_for` `D<nanoseconds>` (constructors `Val.time`, `Val.dur`); the harness converts the
+stored texts to this form with `time` itself.  What is modelled exactly is what the property is about: which part of the instant is stored.
 
 Strings are byte lists (`List Nat`, every element < 256).  Core Lean only.
 -/
@@ -66,12 +66,15 @@ def digitsRev : Nat → Nat → List Nat
 /-- `strconv.FormatUint(n, 10)` as bytes. -/
 def natToDec (n : Nat) : Bytes := ((digitsRev (n + 1) n).reverse).map (· + 48)
 
+/-- One more character of a decimal number. -/
+def decStep (acc : Option Nat) (c : Nat) : Option Nat :=
+  match acc with
+  | none => none
+  | some v => if 48 ≤ c ∧ c ≤ 57 then some (v * 10 + (c - 48)) else none
+
 /-- Value of a digit string (most significant first); `none` if a byte is not a digit or it is empty. -/
 def decToNat (b : Bytes) : Option Nat :=
-  if b = [] then none else
-  b.foldl (fun acc c => match acc with
-    | none => none
-    | some v => if 48 ≤ c ∧ c ≤ 57 then some (v * 10 + (c - 48)) else none) (some 0)
+  if b = [] then none else b.foldl decStep (some 0)
 
 /-- `strconv.Itoa` / `FormatInt(_, 10)`. -/
 def itoa (i : Int) : Bytes :=
@@ -84,24 +87,25 @@ instance (i : Int) : Decidable (inInt64 i) := by unfold inInt64; infer_instance
 
 /-- `strconv.Atoi` / `ParseInt(_, 10, 64)`: optional sign, digits, result must fit `int64`. -/
 def atoi (b : Bytes) : Option Int :=
-  let (neg, ds) := match b with
-    | 45 :: r => (true, r)
-    | 43 :: r => (false, r)
-    | r => (false, r)
-  match decToNat ds with
-  | none => none
-  | some n =>
-    let v : Int := if neg then -(n : Int) else (n : Int)
-    if inInt64 v then some v else none
+  match b with
+  | [] => none
+  | c :: r =>
+    if c = 45 then (decToNat r).bind fun n => if inInt64 (-(n : Int)) then some (-(n : Int)) else none
+    else if c = 43 then (decToNat r).bind fun n => if inInt64 (n : Int) then some (n : Int) else none
+    else (decToNat (c :: r)).bind fun n => if inInt64 (n : Int) then some (n : Int) else none
 
 /-! ### Booleans -/
 
-def fmtBool (b : Bool) : Bytes := if b then ascii "true" else ascii "false"
+def trueBytes : Bytes := [116, 114, 117, 101]
+def falseBytes : Bytes := [102, 97, 108, 115, 101]
 
-/-- `strconv.ParseBool`. -/
+/-- `strconv.FormatBool`. -/
+def fmtBool (b : Bool) : Bytes := if b then trueBytes else falseBytes
+
+/-- `strconv.ParseBool`: accepts 1 t T TRUE true True / 0 f F FALSE false False. -/
 def parseBool (b : Bytes) : Option Bool :=
-  if b ∈ [ascii "1", ascii "t", ascii "T", ascii "TRUE", ascii "true", ascii "True"] then some true
-  else if b ∈ [ascii "0", ascii "f", ascii "F", ascii "FALSE", ascii "false", ascii "False"] then some false
+  if b ∈ [[49], [116], [84], [84, 82, 85, 69], trueBytes, [84, 114, 117, 101]] then some true
+  else if b ∈ [[48], [102], [70], [70, 65, 76, 83, 69], falseBytes, [70, 97, 108, 115, 101]] then some false
   else none
 
 /-! ### JSON strings and string lists, as `encoding/json` writes and reads them -/
@@ -288,7 +292,17 @@ def decTiers (inp : Bytes) : Option (List (List Bytes)) :=
   | [110, 117, 108, 108] => some []
   | _ => none
 
-/-! ### Time and duration (canonical numeric forms, see the header) -/
+/-! ### Time and duration (canonical structured forms, see the header) -/
+
+/-- A stored value: raw bytes, or — for `added_at` and `seeded_for` — the number the stored text
+denotes (the text itself is rendered and parsed by Go's `time`). -/
+inductive Val
+  | raw (b : Bytes)
+  /-- RFC 3339 text of the instant `sec` with the fraction digits `frac` written after the seconds -/
+  | time (sec : Int) (frac : List Nat)
+  /-- `Duration.String()` of `ns` nanoseconds -/
+  | dur (ns : Int)
+  deriving Repr, DecidableEq, Inhabited
 
 /-- Nine fraction digits of `nsec`, most significant first. -/
 def nineDigits (n : Nat) : List Nat :=
@@ -297,39 +311,26 @@ def nineDigits (n : Nat) : List Nat :=
 
 def stripTrailingZeros (l : List Nat) : List Nat := (l.reverse.dropWhile (· = 0)).reverse
 
-/-- `AddedAt.Format(time.RFC3339Nano)` in canonical form: `T<sec>` and, unless the nanoseconds are
-zero, `.` and the fraction with trailing zeros removed. -/
-def encTime (t : Time) : Bytes :=
-  let frac := stripTrailingZeros (nineDigits t.nsec)
-  [84] ++ itoa t.sec ++ (if frac = [] then [] else [46] ++ frac.map (· + 48))
+/-- `AddedAt.Format(time.RFC3339Nano)`: the fraction is the nanoseconds with trailing zeros removed
+(no fraction at all when they are zero). -/
+def encTime (t : Time) : Val := .time t.sec (stripTrailingZeros (nineDigits t.nsec))
 
 /-- The pre-fix format `time.RFC3339`: whole seconds only. -/
-def encTimeSeconds (t : Time) : Bytes := [84] ++ itoa t.sec
+def encTimeSeconds (t : Time) : Val := .time t.sec []
 
-def splitAtDot : Bytes → Bytes → Bytes × Option Bytes
-  | [], acc => (acc.reverse, none)
-  | 46 :: r, acc => (acc.reverse, some r)
-  | c :: r, acc => splitAtDot r (c :: acc)
+def ofDigits (l : List Nat) : Nat := l.foldl (fun a d => a * 10 + d) 0
 
 /-- `time.Parse(time.RFC3339, _)`, which accepts an optional fraction of up to nine digits. -/
-def decTime (b : Bytes) : Option Time :=
-  match b with
-  | 84 :: r =>
-    let (s, f) := splitAtDot r []
-    match atoi s, f with
-    | some sec, none => some ⟨sec, 0⟩
-    | some sec, some fd =>
-      if fd = [] ∨ fd.length > 9 ∨ ¬ fd.all (fun c => 48 ≤ c ∧ c ≤ 57) then none
-      else
-        let padded := fd ++ List.replicate (9 - fd.length) 48
-        (decToNat padded).map fun n => ⟨sec, n⟩
-    | none, _ => none
+def decTime : Val → Option Time
+  | .time sec frac =>
+    if frac.length ≤ 9 ∧ frac.all (· < 10) then
+      some ⟨sec, ofDigits (frac ++ List.replicate (9 - frac.length) 0)⟩
+    else none
   | _ => none
 
-def encDuration (d : Int) : Bytes := [68] ++ itoa d
-def decDuration (b : Bytes) : Option Int :=
-  match b with
-  | 68 :: r => atoi r
+def encDuration (d : Int) : Val := .dur d
+def decDuration : Val → Option Int
+  | .dur ns => if inInt64 ns then some ns else none
   | _ => none
 
 /-! ### The record -/
@@ -337,44 +338,51 @@ def decDuration (b : Bytes) : Option Int :=
 def latestVersion : Int := 3
 
 /-- `Resumer.Write`: the key/value pairs put into the torrent's bucket (`encT` = the time format). -/
-def writeWith (encT : Time → Bytes) (s : Spec) : List (String × Bytes) :=
-  [ ("info_hash", s.infoHash), ("port", itoa s.port), ("name", s.name),
-    ("trackers", encTiers s.trackers), ("url_list", encStrList s.urlList), ("fixed_peers", encStrList s.fixedPeers),
-    ("info", s.info), ("bitfield", s.bitfield), ("added_at", encT s.addedAt),
-    ("bytes_downloaded", itoa s.bytesDownloaded), ("bytes_uploaded", itoa s.bytesUploaded),
-    ("bytes_wasted", itoa s.bytesWasted), ("seeded_for", encDuration s.seededFor),
-    ("started", fmtBool s.started), ("stop_after_download", fmtBool s.stopAfterDownload),
-    ("stop_after_metadata", fmtBool s.stopAfterMetadata), ("complete_cmd_run", fmtBool s.completeCmdRun),
-    ("sequential", fmtBool s.sequential),
-    ("version", itoa (if s.version = 0 then latestVersion else s.version)) ]
+def writeWith (encT : Time → Val) (s : Spec) : List (String × Val) :=
+  [ ("info_hash", .raw s.infoHash), ("port", .raw (itoa s.port)), ("name", .raw s.name),
+    ("trackers", .raw (encTiers s.trackers)), ("url_list", .raw (encStrList s.urlList)),
+    ("fixed_peers", .raw (encStrList s.fixedPeers)),
+    ("info", .raw s.info), ("bitfield", .raw s.bitfield), ("added_at", encT s.addedAt),
+    ("bytes_downloaded", .raw (itoa s.bytesDownloaded)), ("bytes_uploaded", .raw (itoa s.bytesUploaded)),
+    ("bytes_wasted", .raw (itoa s.bytesWasted)), ("seeded_for", encDuration s.seededFor),
+    ("started", .raw (fmtBool s.started)), ("stop_after_download", .raw (fmtBool s.stopAfterDownload)),
+    ("stop_after_metadata", .raw (fmtBool s.stopAfterMetadata)), ("complete_cmd_run", .raw (fmtBool s.completeCmdRun)),
+    ("sequential", .raw (fmtBool s.sequential)),
+    ("version", .raw (itoa (if s.version = 0 then latestVersion else s.version))) ]
 
 def write := writeWith encTime
 /-- `Write` before the fix (`AddedAt` with second resolution). -/
 def writeUnfixed := writeWith encTimeSeconds
 
-def get (kv : List (String × Bytes)) (k : String) : Option Bytes := (kv.find? (·.1 == k)).map (·.2)
+def get (kv : List (String × Val)) (k : String) : Option Val := (kv.find? (·.1 == k)).map (·.2)
+
+/-- `b.Get(key)` for a key holding plain bytes. -/
+def getRaw (kv : List (String × Val)) (k : String) : Option Bytes :=
+  match get kv k with
+  | some (.raw b) => some b
+  | _ => none
 
 /-- `Resumer.Read`.  A key that is absent keeps the zero value (only `info_hash` is mandatory; a
 missing `version` means 1); a value that does not parse makes the whole read fail. -/
-def read (kv : List (String × Bytes)) : Option Spec := do
-  let infoHash ← get kv "info_hash"
-  let port ← atoi ((get kv "port").getD [])
-  let name := (get kv "name").getD []
-  let trackers ← match get kv "trackers" with
+def read (kv : List (String × Val)) : Option Spec := do
+  let infoHash ← getRaw kv "info_hash"
+  let port ← atoi ((getRaw kv "port").getD [])
+  let name := (getRaw kv "name").getD []
+  let trackers ← match getRaw kv "trackers" with
     | some v => decTiers v
     | none => some []
-  let urlList ← match get kv "url_list" with
+  let urlList ← match getRaw kv "url_list" with
     | some v => decStrList v
     | none => some []
-  let fixedPeers ← match get kv "fixed_peers" with
+  let fixedPeers ← match getRaw kv "fixed_peers" with
     | some v => decStrList v
     | none => some []
-  let info := (get kv "info").getD []
-  let bitfield := (get kv "bitfield").getD []
+  let info := (getRaw kv "info").getD []
+  let bitfield := (getRaw kv "bitfield").getD []
   let addedAt ← match get kv "added_at" with
     | some v => decTime v
     | none => some ⟨-62135596800, 0⟩
-  let num := fun (k : String) => match get kv k with
+  let num := fun (k : String) => match getRaw kv k with
     | some v => atoi v
     | none => some 0
   let dl ← num "bytes_downloaded"
@@ -383,7 +391,7 @@ def read (kv : List (String × Bytes)) : Option Spec := do
   let se ← match get kv "seeded_for" with
     | some v => decDuration v
     | none => some 0
-  let bool := fun (k : String) => match get kv k with
+  let bool := fun (k : String) => match getRaw kv k with
     | some v => parseBool v
     | none => some false
   let st ← bool "started"
@@ -391,7 +399,7 @@ def read (kv : List (String × Bytes)) : Option Spec := do
   let sam ← bool "stop_after_metadata"
   let ccr ← bool "complete_cmd_run"
   let sq ← bool "sequential"
-  let ver ← match get kv "version" with
+  let ver ← match getRaw kv "version" with
     | some v => atoi v
     | none => some 1
   pure ⟨infoHash, port, name, trackers, urlList, fixedPeers, info, bitfield, addedAt, dl, ul, wa, se,
